@@ -107,6 +107,20 @@ instead of the atom being false) and a negated flattened atom means "some elemen
 first-order reading ("some element satisfies") in purely conjunctive positive positions -/
 def trigFlatten (e : Expr) : Bool := e.hasFlatten && (e.hasNotOrOr || e.hasQuant)
 
+def Expr.isCompound : Expr → Bool
+  | .and _ _ | .elseIf _ _ | .union _ _ => true
+  | .not e | .exists_ _ e | .forAll _ e => e.isCompound
+  | _ => false
+
+/-- F-C01-11: a `ForAll` over a compound condition: a candidate produced by a short-circuited branch does not bind
+every other variable, and its re-check under the next universal value reads only the FIRST result of a condition
+that now enumerates the unbound variable -/
+def Expr.forAllCompound : Expr → Bool
+  | .forAll _ e => e.isCompound || e.forAllCompound
+  | .exists_ _ e | .not e => e.forAllCompound
+  | .and l r | .elseIf l r | .union l r => l.forAllCompound || r.forAllCompound
+  | _ => false
+
 def triggers (w : World) (q : SQuery) : List String :=
   match q.cond.map build with
   | none => if trigMultiSel q then ["F-C01-2"] else []
@@ -118,6 +132,7 @@ def triggers (w : World) (q : SQuery) : List String :=
     (if e.forAllEmpty w then ["F-C01-6"] else []) ++
     (if e.quantUnderNotOrOr then ["F-C01-8"] else []) ++
     (if trigUnionEmptyDom w q e then ["F-C01-9"] else []) ++
-    (if trigFlatten e then ["F-C01-10"] else [])
+    (if trigFlatten e then ["F-C01-10"] else []) ++
+    (if e.forAllCompound then ["F-C01-11"] else [])
 
 end KrroodVerif.Eql
